@@ -254,6 +254,9 @@ class Program:
         self.classes_without_mro = []
         self.parse_errors = []
         self._load(exclude)
+        self.calls_canonicalised = 0
+        if os.environ.get("VERIF_NO_CALL_CANON") != "1":
+            self._canonicalise_calls()
 
     # ------------------------------------------------------------------ loading
     def _load(self, exclude):
@@ -288,6 +291,82 @@ class Program:
         for m in self.modules.values():
             for c in m.classes.values():
                 self.classes_by_name.setdefault(c.name, []).append(c)
+
+    def _canonicalise_calls(self):
+        """
+        f(x=a, y=b) is read as f(a, b): for every call whose callee resolves inside the package (module-level function by name, own method through
+        self. / cls. along the MRO) the keyword arguments that cover a PREFIX of the callee's parameters are moved to their positions.  Calls with
+        *args, callees with *args / positional-only parameters, and constructor calls are left as written.  Rules therefore never depend on whether
+        an argument of a library function was passed by position or by keyword.
+        """
+        for m in self.modules.values():
+            self._canon_calls_in(m, m.tree, None)
+
+    def _canon_calls_in(self, m, node, cls):
+        for ch in ast.iter_child_nodes(node):
+            if isinstance(ch, ast.ClassDef):
+                self._canon_calls_in(m, ch, m.classes.get(ch.name) if node is m.tree else None)
+            else:
+                self._canon_calls_in(m, ch, cls)
+        if not isinstance(node, ast.Call) or not node.keywords or any(isinstance(a, ast.Starred) for a in node.args):
+            return
+        callee = None
+        skip = 0
+        try:
+            if isinstance(node.func, ast.Name):
+                t = self.resolve_name(m, node.func.id)
+                if isinstance(t, FuncInfo):
+                    callee = t
+            elif isinstance(node.func, ast.Attribute) and isinstance(node.func.value, ast.Name) and node.func.value.id in ("self", "cls") and cls is not None \
+                    and self.mro(cls) is not None:
+                t = self.lookup_method(cls, node.func.attr)
+                if isinstance(t, FuncInfo) and t.kind in ("method", "classmethod", "staticmethod"):
+                    callee = t
+                    skip = 0 if t.kind == "staticmethod" else 1
+        except Exception:
+            return
+        if callee is None or callee.node.args.vararg is not None or callee.node.args.posonlyargs:
+            return
+        pn = [a.arg for a in callee.node.args.args][skip:]
+        kw = {k.arg: k for k in node.keywords if k.arg is not None}
+        moved = False
+        while len(node.args) < len(pn) and pn[len(node.args)] in kw:
+            k = kw.pop(pn[len(node.args)])
+            node.args.append(k.value)
+            node.keywords.remove(k)
+            moved = True
+        if moved:
+            self.calls_canonicalised += 1
+
+    def bound_args(self, f, call):
+        """parameter name -> argument expression for a call made inside function `f`, when the callee resolves inside the package
+        (module function by name; own method through self./cls.).  Returns (dict, callee) or (None, None)."""
+        callee = None
+        skip = 0
+        try:
+            if isinstance(call.func, ast.Name):
+                t = self.resolve_name(f.module, call.func.id)
+                if isinstance(t, FuncInfo):
+                    callee = t
+            elif isinstance(call.func, ast.Attribute) and isinstance(call.func.value, ast.Name) and call.func.value.id in ("self", "cls") and f.cls is not None \
+                    and self.mro(f.cls) is not None:
+                t = self.lookup_method(f.cls, call.func.attr)
+                if isinstance(t, FuncInfo):
+                    callee = t
+                    skip = 0 if t.kind == "staticmethod" else 1
+        except Exception:
+            return None, None
+        if callee is None or any(isinstance(a, ast.Starred) for a in call.args):
+            return None, None
+        pn = [a.arg for a in callee.node.args.args][skip:]
+        out = {}
+        for i, a in enumerate(call.args):
+            if i < len(pn):
+                out[pn[i]] = a
+        for k in call.keywords:
+            if k.arg is not None:
+                out[k.arg] = k.value
+        return out, callee
 
     def digest(self):
         h = hashlib.sha256()
